@@ -64,7 +64,16 @@ def delete_flow(prog):
             tid = prog.qual(prog.facts.body(actor.dispatch), tgt)
             if any(e.kind == "write" and e.touches(deleted) for e in prog.effects(tid)):
                 return actor, vname, tid
-    raise CheckBroken("no actor handler sets SubscriptionActor.deleted")
+    # no handler raises the flag (R11.6 reports that): the delete flow is the handler that takes the subscription out of the
+    # manager / raises the deletion signal
+    submap = A.cell("SubState", "subscriptions")
+    sig = A.cell("SubscriptionObserver", "deleted_send")
+    for vname, vh in actor.variants.items():
+        for (bb, tgt) in vh.calls:
+            tid = prog.qual(prog.facts.body(actor.dispatch), tgt)
+            if any((e.touches(submap) and e.kind in L.REMOVE_KINDS) or (e.touches(sig) and e.kind in ("take", "oneshot_send")) for e in prog.effects(tid)):
+                return actor, vname, tid
+    raise CheckBroken("no actor handler deletes the subscription (sets SubscriptionActor.deleted / leaves the manager / raises the signal)")
 
 
 def effect_body(prog, tid):
@@ -87,16 +96,18 @@ def r12_1(prog, out):
     deleted = A.cell("SubscriptionActor", "deleted")
     effs = prog.effects(bid)
     writes = [e.bb for e in effs if e.kind == "write" and e.touches(deleted) and not e.chain]
-    if not writes:
-        raise CheckBroken("write of SubscriptionActor.deleted not found in %s" % bid)
     errs = error_blocks(bi)
+    from actorlib import roles
+    already = roles(prog).flag_true_blocks(bi, deleted)
     for label, cell, kinds in (("deletion-signal", sig, ("take", "oneshot_send")), ("wake-message-waiters", wake, ("notify_waiters",))):
         sites = sorted({e.bb for e in effs if e.touches(cell) and e.kind in kinds})
         key = "%s:%s" % (label, prog.short(bid))
         if not sites:
             out.violation(key, prog.loc(bid), "the delete flow never %s" % ("raises the deletion signal" if label == "deletion-signal" else "wakes consumers blocked on the message signal"))
             continue
-        esc = bi.cfg.escapes(writes[0], set(sites) | errs)
+        # from the point the subscription is marked deleted -- or, when the handler does not mark it (R11.6's finding), from its
+        # entry, the already-deleted early return excepted
+        esc = bi.cfg.escapes(writes[0], set(sites) | errs) if writes else bi.cfg.escapes(0, set(sites) | errs | already, after=False)
         if esc is None:
             out.holds(key, bi.loc(sites[0]), "every successful path from marking the subscription deleted passes it")
         else:
